@@ -663,9 +663,17 @@ class RealSys:
         except Exception as e:  # rustworkx errors etc.
             raise Raised(f"{type(e).__name__}: {e}")
 
+    def _ginfo(self, f):
+        """indices the graph-level op needs, read before the call (None: cannot be read, the call raises too)"""
+        try:
+            self.ginfo = f()
+        except Exception:
+            self.ginfo = None
+
     def _apply(self, op):
         o = op["o"]
         D = self.ds.real
+        self.ginfo = {}
         if o == "fresh":
             self.h.append(Tree(self.grid))
             return [len(self.h) - 1]
@@ -673,10 +681,12 @@ class RealSys:
         t = self.h[h]
         if o == "create":
             kids = [self.clone_name(t, a) for a in op["kids"]]
+            self._ginfo(lambda: {"kids": [t._node_indices[k] for k in kids]})
             t.create_root_node(children=kids, data=[D[i] for i in op["dps"]])
             return [h]
         if o == "createAdd":
             kids = [self.clone_name(t, a) for a in op["kids"]]
+            self._ginfo(lambda: {"kids": [t._node_indices[k] for k in kids]})
             nn = t.create_root_node(children=kids)
             t.add_data_point_to_node(D[op["dp"]], nn)
             return [h]
@@ -697,15 +707,24 @@ class RealSys:
             n = self.resolve(t, op["root"])
             if n == t.outlier_node_name:
                 raise KeyError("subtree of the outlier node")
+            self._ginfo(lambda: {"root": None if n == t.root_node_name else t._node_indices[n]})
             self.h.append(t.get_subtree(n))
             return [h, len(self.h) - 1]
         if o == "rmSub":
-            t.remove_subtree(self.h[op["hs"]])
+            sb = self.h[op["hs"]]
+
+            def rm_info():
+                same = sb.copy() == t.copy()  # the branch `remove_subtree` takes (compared on copies: `==` creates `_data` keys)
+                return {"reinit": bool(same), "r": None if same else t._node_indices[sb.roots[0]]}
+
+            self._ginfo(rm_info)
+            t.remove_subtree(sb)
             return [h, op["hs"]]
         if o == "addSub":
             n = self.resolve(t, op["par"])
             if n == t.outlier_node_name:
                 raise KeyError("graft under the outlier node")
+            self._ginfo(lambda: {"p": t._node_indices[n], "sub_root": self.h[op["hs"]]._node_indices["root"]})
             t.add_subtree(self.h[op["hs"]], parent=None if n == t.root_node_name else n)
             return [h, op["hs"]]
         if o == "relabel":
